@@ -8,8 +8,10 @@ emit() depend on earlier emit() calls of the same Program, or a parse() depend o
                      (argument of any other call - e.g. an IR-node constructor -, bound to a name, stored, returned, yielded)
   node_lazy_args     IR-node constructor calls of parser.py (the classes of ast.py) that take a lazy value - directly or through a
                      local name bound to one - as an argument: (node class, field, line)
-  emit_arg_mutations statements of emitter.py that change an object reached through an attribute (node.field = ..., node.field.append(..),
-                     del node.field, setattr(..)): emit() changing the Program it was given
+  emit_arg_mutations statements of emitter.py that change an object reached through an attribute / getattr(..) or through a local name bound to
+                     such a part (aliases, loop variables over them): node.field = ..., node.field.append(..), part = getattr(ast, "x"); part.pop(),
+                     del node.field, setattr(..) - emit() changing the Program it was given.  (The emitter's own per-call tables are locals
+                     created by display / constructor and parameters: not flagged.)
   guard_sites        re-entrancy guards `R.add(k) ... R.remove(k) / R.discard(k)` on a set: where the set lives (0 = an object of the
                      current call: a local / a parameter / something fetched from ctx; 1 = a module-level object) and how the key is
                      released (0 = in a `finally` block; 1 = by a statement that an exception skips)
@@ -171,26 +173,47 @@ def analyse(src_dir: Path, die):
                             node_args.append({"node": n.func.id, "field": fname, "line": n.lineno, "text": ast.unparse(v)[:90]})
         # ---- emit() changing what it was given
         if f == "emitter.py":
-            for n in ast.walk(tree):
-                how = None
-                if isinstance(n, (ast.Assign, ast.AugAssign, ast.AnnAssign)):
-                    for t in (n.targets if isinstance(n, ast.Assign) else [n.target]):
-                        for x in ([t] if not isinstance(t, (ast.Tuple, ast.List)) else t.elts):
-                            if isinstance(x, ast.Attribute) or (isinstance(x, ast.Subscript) and isinstance(x.value, ast.Attribute)):
-                                how = "store"
-                elif isinstance(n, ast.Delete):
-                    if any(isinstance(t, ast.Attribute) or (isinstance(t, ast.Subscript) and isinstance(t.value, ast.Attribute)) for t in n.targets):
-                        how = "del"
-                elif isinstance(n, ast.Call):
-                    if isinstance(n.func, ast.Attribute) and n.func.attr in MUTATORS and isinstance(n.func.value, (ast.Attribute,)):
-                        how = "mutating call"
-                    elif isinstance(n.func, ast.Attribute) and n.func.attr in MUTATORS and isinstance(n.func.value, ast.Subscript) \
-                            and isinstance(n.func.value.value, ast.Attribute):
-                        how = "mutating call"
-                    elif isinstance(n.func, ast.Name) and n.func.id in ("setattr", "delattr"):
-                        how = n.func.id
-                if how:
-                    mutations.append({"file": f, "fn": _fn_name(n, par), "line": n.lineno, "how": how, "text": ast.unparse(n)[:100]})
+            def _is_part(e, aliases):
+                """an expression that denotes (a part of) an object the function was given: x.attr, getattr(x, ..), alias, alias[...]"""
+                if isinstance(e, ast.Attribute):
+                    return True
+                if isinstance(e, ast.Call) and isinstance(e.func, ast.Name) and e.func.id == "getattr":
+                    return True
+                if isinstance(e, ast.Name):
+                    return e.id in aliases
+                if isinstance(e, ast.Subscript):
+                    return _is_part(e.value, aliases)
+                return False
+            for fn in ast.walk(tree):
+                if not isinstance(fn, (ast.FunctionDef, ast.AsyncFunctionDef)):
+                    continue
+                # local names bound to a part of such an object (two rounds: aliases of aliases, loop variables over aliases)
+                aliases = set()
+                for _round in range(3):
+                    for n in ast.walk(fn):
+                        if isinstance(n, ast.Assign) and len(n.targets) == 1 and isinstance(n.targets[0], ast.Name) and _is_part(n.value, aliases):
+                            aliases.add(n.targets[0].id)
+                        elif isinstance(n, (ast.For, ast.comprehension)) and isinstance(n.target, ast.Name) and _is_part(n.iter, aliases):
+                            aliases.add(n.target.id)
+                for n in ast.walk(fn):
+                    if _enclosing_fn(n, par) is not fn:
+                        continue
+                    how = None
+                    if isinstance(n, (ast.Assign, ast.AugAssign, ast.AnnAssign)):
+                        for t in (n.targets if isinstance(n, ast.Assign) else [n.target]):
+                            for x in ([t] if not isinstance(t, (ast.Tuple, ast.List)) else t.elts):
+                                if isinstance(x, ast.Attribute) or (isinstance(x, ast.Subscript) and _is_part(x.value, aliases)):
+                                    how = "store"
+                    elif isinstance(n, ast.Delete):
+                        if any(isinstance(t, ast.Attribute) or (isinstance(t, ast.Subscript) and _is_part(t.value, aliases)) for t in n.targets):
+                            how = "del"
+                    elif isinstance(n, ast.Call):
+                        if isinstance(n.func, ast.Attribute) and n.func.attr in MUTATORS and _is_part(n.func.value, aliases):
+                            how = "mutating call"
+                        elif isinstance(n.func, ast.Name) and n.func.id in ("setattr", "delattr"):
+                            how = n.func.id
+                    if how:
+                        mutations.append({"file": f, "fn": fn.name, "line": n.lineno, "how": how, "text": ast.unparse(n)[:100]})
         # ---- re-entrancy guards
         for fn in ast.walk(tree):
             if not isinstance(fn, (ast.FunctionDef, ast.AsyncFunctionDef)):
@@ -220,6 +243,14 @@ def analyse(src_dir: Path, die):
                     while g is not None:
                         if root in _locals_of(g):
                             scope = 0
+                            # ... unless the local is bound to (a part of) a module-level object somewhere in that function
+                            for n2 in ast.walk(g):
+                                if isinstance(n2, (ast.Assign, ast.AnnAssign)) and n2.value is not None:
+                                    tg = n2.targets if isinstance(n2, ast.Assign) else [n2.target]
+                                    if any(isinstance(t, ast.Name) and t.id == root for t in tg):
+                                        src_root = _root_name(n2.value)
+                                        if src_root is not None and src_root in module_names and src_root not in _locals_of(g):
+                                            scope = 1
                             break
                         g = _enclosing_fn(g, par)
                     if scope is None:
@@ -227,16 +258,14 @@ def analyse(src_dir: Path, die):
                     if scope is None:
                         die(f"purity: {f}:{a.lineno} guard set `{root}` is neither a local nor a module-level name")
                     # is the release inside a finally block of a try statement of this function?
+                    # unconditionally: the release must be a statement OF the finally block, not nested in an if / loop inside it
                     release = 1
-                    x = r
-                    while x in par and par[x] is not fn:
-                        p = par[x]
-                        if isinstance(p, ast.Try) and any(x is s or x in list(ast.walk(s)) for s in p.finalbody):
-                            # the add must precede the try or stand in its body
-                            if a.lineno <= p.lineno or any(a in list(ast.walk(s)) for s in p.body):
-                                release = 0
-                            break
-                        x = p
+                    stmt = par.get(r)
+                    tr = par.get(stmt) if isinstance(stmt, ast.Expr) else None
+                    if isinstance(tr, ast.Try) and any(stmt is s_ for s_ in tr.finalbody):
+                        # the add must precede the try or stand in its body
+                        if a.lineno <= tr.lineno or any(a in list(ast.walk(s_)) for s_ in tr.body):
+                            release = 0
                     guards.append({"file": f, "fn": fn.name, "recv": ast.unparse(a.func.value), "line": a.lineno, "scope": scope,
                                    "release": release, "key": ast.unparse(a.args[0])[:60]})
     if not any(g["file"] == "parser.py" and g["fn"] == "_ensure_function_variant" for g in guards):
